@@ -571,6 +571,8 @@ pub struct Stats {
     pub max_len: AtomicU64,
     /// order-independent fingerprint of the labelled transition graph (key, op, return, successor key)
     pub graph_fp: AtomicU64,
+    /// merge-soundness mismatches (machinery-level nondeterminism, never a verdict)
+    pub merge_mismatch: Mutex<Vec<String>>,
 }
 
 pub trait Probe<H: HB>: Sync + Send {
@@ -725,10 +727,40 @@ impl<'a, H: HB> Explorer<'a, H> {
     pub fn run(&self, roots: Vec<(bool, Root)>, max_depth: Option<u64>) {
         let cfg = self.cfg;
         let universe = cfg.universe();
-        let seen: Vec<Mutex<HashMap<Vec<u8>, ()>>> = (0..SHARDS).map(|_| Mutex::new(HashMap::new())).collect();
+        let seen: Vec<Mutex<HashMap<Vec<u8>, (u64, u64)>>> = (0..SHARDS).map(|_| Mutex::new(HashMap::new())).collect();
         let insert = |key: &Vec<u8>| -> bool {
             let sh = (hash64(key) as usize) % SHARDS;
-            seen[sh].lock().unwrap().insert(key.clone(), ()).is_none()
+            seen[sh].lock().unwrap().insert(key.clone(), (0, 0)).is_none()
+        };
+        // merge soundness: fingerprint of all successors (op, return, successor key) of a copy.
+        // slot.0 = fingerprint from the canonical copy, slot.1 = from the first re-discovered copy.
+        let fingerprint = |q: &AnyQ<H>, unordered: bool| -> u64 {
+            let snap = q.snap();
+            let m = model_of(&snap);
+            let mut ops = vec![];
+            let back = with_q!(q, x => iter_mut_offers_back(x));
+            gen_ops(cfg, q.double(), &m, back, &mut ops);
+            let mut fp = 0u64;
+            for op in &ops {
+                if let Ok(ap) = apply(q, unordered, &m, op, &universe) {
+                    let k = encode_key(ap.q.double(), ap.unordered, &ap.snap);
+                    fp = fp.wrapping_add(hash64(&(op, format!("{:?}", ap.ret), k)) | 1);
+                }
+            }
+            (fp | 1) & (u64::MAX >> 1)
+        };
+        let record_fp = |key: &Vec<u8>, fp: u64, canonical: bool| -> Result<bool, (u64, u64)> {
+            let sh = (hash64(key) as usize) % SHARDS;
+            let mut g = seen[sh].lock().unwrap();
+            let e = g.get_mut(key).unwrap();
+            if canonical { e.0 = fp } else { e.1 = fp }
+            if e.0 != 0 && e.1 != 0 && e.1 != u64::MAX && e.0 != e.1 { Err(*e) } else { Ok(true) }
+        };
+        let needs_redisc = |key: &Vec<u8>| -> bool {
+            let sh = (hash64(key) as usize) % SHARDS;
+            let mut g = seen[sh].lock().unwrap();
+            let e = g.get_mut(key).unwrap();
+            if e.1 == 0 { e.1 = u64::MAX; true } else { false }
         };
         // roots
         let mut frontier: Vec<Node<H>> = vec![];
@@ -789,6 +821,12 @@ impl<'a, H: HB> Explorer<'a, H> {
                             let m = model_of(&snap);
                             let double = node.q.double();
                             let parent_key = encode_key(double, node.unordered, &snap);
+                            if cfg.merge_check {
+                                let fp = fingerprint(&node.q, node.unordered);
+                                if let Err((a, b)) = record_fp(&parent_key, fp, true) {
+                                    self.stats.merge_mismatch.lock().unwrap().push(format!("state reached by {:?}: successor fingerprint {a:016x} differs from a re-discovered copy's {b:016x}", node.ops()));
+                                }
+                            }
                             ops.clear();
                             let back = with_q!(&node.q, x => iter_mut_offers_back(x));
                             gen_ops(cfg, double, &m, back, &mut ops);
@@ -833,12 +871,15 @@ impl<'a, H: HB> Explorer<'a, H> {
                                                 c.lock().unwrap().push(child.dup());
                                             }
                                             mine.push(child);
-                                        } else if cfg.merge_check {
-                                            // merge soundness: the re-discovered copy must have exactly the
-                                            // successors (returns + keys) of any other copy with this key. Since
-                                            // every successor is a deterministic function of the key, comparing
-                                            // against a fresh re-derivation from this copy is the check.
+                                        } else if cfg.merge_check && needs_redisc(&key) {
+                                            // merge soundness: the first re-discovered copy of a state must have
+                                            // exactly the successors (operation, return, successor key) of the
+                                            // canonical copy that the search expands.
                                             local.merge_checked += 1;
+                                            let fp = fingerprint(&ap.q, ap.unordered);
+                                            if let Err((a, b)) = record_fp(&key, fp, false) {
+                                                self.stats.merge_mismatch.lock().unwrap().push(format!("state reached by {:?} then {op:?}: successor fingerprint {b:016x} differs from the canonical copy's {a:016x}", node.ops()));
+                                            }
                                         }
                                     }
                                 }
